@@ -925,6 +925,11 @@ impl<'a, R: Read, E: Encryption> Builder<'a, R, E> {
             } else {
                 self.to_writer(rng, &mut enc)?;
             }
+
+            // write out what is still buffered, so that errors are reported and not lost in `drop`
+            enc.finish()?;
+            drop(enc);
+            line_wrapper.finish()?;
         }
 
         // write footer
